@@ -52,7 +52,12 @@ Inductive op :=
 | OPassword (auth : option nat) (creds_ok : bool) (scopes : list string) (aud : list aurl)
             (granted : list string) (gaud : list aurl)
 | OClientCreds (auth : option nat) (scopes : list string) (aud : list aurl) (granted : list string) (gaud : list aurl)
-| OIntrospectEP (caller : caller) (tok : pres) (h : hint) (scopes : list string).
+| OIntrospectEP (caller : caller) (tok : pres) (h : hint) (scopes : list string)
+| OPush (auth : option nat) (body_client : option nat) (has_request_uri : bool) (a : authz)
+| OAuthorizePAR (client_param : nat) (uri : pres) (a : authz)
+| ODeviceAuth (auth : option nat) (body_client : nat) (scopes : list string) (aud : list aurl)
+| ODecide (dev : pres) (accept : bool) (granted : list string) (gaud : list aurl) (subject : string)
+| ODevicePoll (auth : option nat) (dev : pres).
 
 (* ------------------------------------------------------------------ small helpers *)
 Definition scopes_ok (cfg : config) (cl : client) (scopes : list string) : bool :=
@@ -73,7 +78,8 @@ Definition expired_rt (exp : option Z) (now_ : Z) : bool :=
 Definition set_token_expiries (cfg : config) (now_ : Z) (se : sess) : sess :=
   {| s_subject := s_subject se; s_exp_code := s_exp_code se;
      s_exp_at := Some (round_s (now_ + cf_life_at cfg));
-     s_exp_rt := if Z.leb 0 (cf_life_rt cfg) then Some (round_s (now_ + cf_life_rt cfg)) else s_exp_rt se |}.
+     s_exp_rt := if Z.leb 0 (cf_life_rt cfg) then Some (round_s (now_ + cf_life_rt cfg)) else s_exp_rt se;
+     s_exp_dev := s_exp_dev se |}.
 
 Definition expires_in (se : sess) (cfg : config) (now_ : Z) : Z :=
   match s_exp_at se with
@@ -157,37 +163,179 @@ Definition pkce_token (cfg : config) (s : state) (cl : client) (key : option nat
   end.
 
 (* ------------------------------------------------------------------ authorization endpoint, code flow *)
+(* AuthorizeExplicitGrantHandler.HandleAuthorizeEndpointRequest + IssueAuthorizeCode, then the PKCE handler,
+   for the client object [cl] the request carries *)
+Definition authorize_core (cfg : config) (s : state) (cl : client) (a : authz) : state * obs :=
+  if negb (scopes_ok cfg cl (az_scopes a)) then fail s "invalid_scope"
+  else if negb (aud_ok cfg (cl_aud cl) (az_aud a)) then fail s "invalid_request"
+  else
+    let (rid, s1) := fresh_rid s in
+    let (k, s2) := mint s1 KCode rid in
+    let se := {| s_subject := az_subject a; s_exp_code := Some (now s + cf_life_code cfg)%Z;
+                 s_exp_at := None; s_exp_rt := None; s_exp_dev := None |} in
+    let r := {| r_id := rid; r_client := az_client a; r_cl := cl; r_rscopes := az_scopes a; r_gscopes := az_granted a;
+                r_raud := az_aud a; r_gaud := az_gaud a; r_sess := se; r_redirect := az_redirect a;
+                r_challenge := ""; r_method := ""; r_at := now s |} in
+    let s3 := set_store s2 (create_code (st s2) k r) in
+    (* pkce.Handler.HandleAuthorizeEndpointRequest (runs last) *)
+    match pkce_validate cfg (az_challenge a) (az_method a) cl with
+    | Some e => fail s3 e
+    | None =>
+        let s4 :=
+          if String.eqb (az_challenge a) "" && String.eqb (az_method a) "" then s3
+          else set_store s3 (create_pkce (st s3) k
+                 {| r_id := rid; r_client := az_client a; r_cl := cl; r_rscopes := az_scopes a; r_gscopes := az_granted a;
+                    r_raud := az_aud a; r_gaud := az_gaud a; r_sess := se; r_redirect := "";
+                    r_challenge := az_challenge a; r_method := az_method a; r_at := now s |}) in
+        (log_add s4 [{| i_kind := KCode; i_key := k; i_rid := rid; i_endpoint_token := false |}],
+         ok_obs [KCode] 0%Z [])
+    end.
+
+(* NewAuthorizeRequest without request_uri: refused when pushing is enforced; the client is looked up by the
+   client_id parameter; scope and audience are validated against its registration (the same checks the
+   handler repeats) *)
 Definition authorize (cfg : config) (s : state) (a : authz) : state * obs :=
-  match clients s (az_client a) with
+  if cf_par_enforced cfg then fail s "invalid_request"
+  else match clients s (az_client a) with
+       | None => fail s "invalid_client"
+       | Some cl => authorize_core cfg s cl a
+       end.
+
+(* ------------------------------------------------------------------ pushed authorization requests *)
+(* NewPushedAuthorizeRequest + PushedAuthorizeHandler: the caller authenticates as [auth]; the request is
+   processed for the client named by the body's client_id (the authenticated client when absent) *)
+Definition push (cfg : config) (s : state) (auth : option nat) (body_client : option nat) (has_request_uri : bool)
+           (a : authz) : state * obs :=
+  match auth with
+  | None => fail s "invalid_client"
+  | Some c =>
+  match clients s c with
+  | None => fail s "invalid_client"
+  | Some _ =>
+      if has_request_uri then fail s "invalid_request"
+      else
+      let cid := match body_client with Some b => b | None => c end in
+      match clients s cid with
+      | None => fail s "invalid_client"
+      | Some cl =>
+          if negb (scopes_ok cfg cl (az_scopes a)) then fail s "invalid_scope"
+          else if negb (aud_ok cfg (cl_aud cl) (az_aud a)) then fail s "invalid_request"
+          else
+            let (rid, s1) := fresh_rid s in
+            let (k, s2) := mint s1 KPar rid in
+            let r := {| r_id := rid; r_client := cid; r_cl := cl; r_rscopes := az_scopes a; r_gscopes := [];
+                        r_raud := az_aud a; r_gaud := [];
+                        r_sess := {| s_subject := ""; s_exp_code := None; s_exp_at := None; s_exp_rt := None; s_exp_dev := None |};
+                        r_redirect := az_redirect a; r_challenge := az_challenge a; r_method := az_method a; r_at := now s |} in
+            (log_add (set_store s2 (create_par (st s2) k r))
+               [{| i_kind := KPar; i_key := k; i_rid := rid; i_endpoint_token := false |}],
+             ok_obs [KPar] (secs (cf_par_life cfg)) [])
+      end
+  end end.
+
+(* authorization request carrying a request_uri with the configured prefix (authorizeRequestFromPAR): the
+   session is looked up and deleted, the client_id parameter must name the pushing client, and the
+   authorization proceeds with the pushed parameters; query parameters only supply keys the pushed form
+   does not contain ([a] carries the query's PKCE parameters and the resource owner's decision) *)
+Definition authorize_par (cfg : config) (s : state) (client_param : nat) (uri : pres) (a : authz) : state * obs :=
+  match key_of s uri with
+  | None => fail s "invalid_request_uri"
+  | Some k =>
+  match par (st s) k with
+  | None => fail s "invalid_request_uri"
+  | Some pr =>
+      let s1 := set_store s (delete_par (st s) k) in
+      if negb (Nat.eqb client_param (r_client pr)) then fail s1 "invalid_request"
+      else
+        authorize_core cfg s1 (r_cl pr)
+          {| az_client := r_client pr; az_redirect := r_redirect pr; az_scopes := r_rscopes pr; az_granted := az_granted a;
+             az_aud := r_raud pr; az_gaud := az_gaud a; az_subject := az_subject a;
+             az_challenge := if String.eqb (r_challenge pr) "" then az_challenge a else r_challenge pr;
+             az_method := if String.eqb (r_method pr) "" then az_method a else r_method pr |}
+  end end.
+
+(* ------------------------------------------------------------------ device authorization grant (RFC 8628) *)
+(* NewDeviceRequest + DeviceAuthHandler *)
+Definition device_authorize (cfg : config) (s : state) (auth : option nat) (body_client : nat)
+           (scopes : list string) (aud : list aurl) : state * obs :=
+  match auth with
+  | None => fail s "invalid_client"
+  | Some c =>
+  match clients s c with
   | None => fail s "invalid_client"
   | Some cl =>
-      (* NewAuthorizeRequest: validateAuthorizeScope, validateAudience *)
-      if negb (scopes_ok cfg cl (az_scopes a)) then fail s "invalid_scope"
-      else if negb (aud_ok cfg (cl_aud cl) (az_aud a)) then fail s "invalid_request"
+      if negb (Nat.eqb c body_client) then fail s "invalid_request"
+      else if negb (args_has (cl_grants cl) ["urn:ietf:params:oauth:grant-type:device_code"]) then fail s "invalid_grant"
+      else if negb (scopes_ok cfg cl scopes) then fail s "invalid_scope"
+      else if negb (aud_ok cfg (cl_aud cl) aud) then fail s "invalid_request"
       else
-        (* AuthorizeExplicitGrantHandler.HandleAuthorizeEndpointRequest + IssueAuthorizeCode *)
         let (rid, s1) := fresh_rid s in
-        let (k, s2) := mint s1 KCode rid in
-        let se := {| s_subject := az_subject a; s_exp_code := Some (now s + cf_life_code cfg)%Z;
-                     s_exp_at := None; s_exp_rt := None |} in
-        let r := {| r_id := rid; r_client := az_client a; r_cl := cl; r_rscopes := az_scopes a; r_gscopes := az_granted a;
-                    r_raud := az_aud a; r_gaud := az_gaud a; r_sess := se; r_redirect := az_redirect a;
-                    r_challenge := ""; r_method := ""; r_at := now s |} in
-        let s3 := set_store s2 (create_code (st s2) k r) in
-        (* pkce.Handler.HandleAuthorizeEndpointRequest (runs last) *)
-        match pkce_validate cfg (az_challenge a) (az_method a) cl with
-        | Some e => fail s3 e
-        | None =>
-            let s4 :=
-              if String.eqb (az_challenge a) "" && String.eqb (az_method a) "" then s3
-              else set_store s3 (create_pkce (st s3) k
-                     {| r_id := rid; r_client := az_client a; r_cl := cl; r_rscopes := az_scopes a; r_gscopes := az_granted a;
-                        r_raud := az_aud a; r_gaud := az_gaud a; r_sess := se; r_redirect := "";
-                        r_challenge := az_challenge a; r_method := az_method a; r_at := now s |}) in
-            (log_add s4 [{| i_kind := KCode; i_key := k; i_rid := rid; i_endpoint_token := false |}],
-             ok_obs [KCode] 0%Z [])
-        end
-  end.
+        let (kd, s2) := mint s1 KDevice rid in
+        let (ku, s3) := mint s2 KUser rid in
+        let exp := round_s (now s + cf_life_dev cfg) in
+        let r := {| r_id := rid; r_client := c; r_cl := cl; r_rscopes := scopes; r_gscopes := [];
+                    r_raud := aud; r_gaud := [];
+                    r_sess := {| s_subject := ""; s_exp_code := None; s_exp_at := None; s_exp_rt := None; s_exp_dev := Some exp |};
+                    r_redirect := ""; r_challenge := ""; r_method := ""; r_at := now s |} in
+        (log_add (set_store s3 (put_device (st s3) kd (0, r)))
+           [{| i_kind := KDevice; i_key := kd; i_rid := rid; i_endpoint_token := false |};
+            {| i_kind := KUser; i_key := ku; i_rid := rid; i_endpoint_token := false |}],
+         ok_obs [KDevice; KUser] (secs (exp - now s)) [])
+  end end.
+
+(* the embedding application's verification page: validates the user code (expiry) and records the
+   decision, the granted scopes / audience and the subject on the stored request *)
+Definition decide (cfg : config) (s : state) (dev : pres) (accept : bool) (granted : list string) (gaud : list aurl)
+           (subject : string) : state * obs :=
+  match key_of s dev with
+  | None => fail s "not_found"
+  | Some k =>
+  match device (st s) k with
+  | None => fail s "not_found"
+  | Some (_, r) =>
+      if expired (s_exp_dev (r_sess r)) (r_at r) (cf_life_dev cfg) (now s) then fail s "expired_token"
+      else
+        let se := r_sess r in
+        let r' := {| r_id := r_id r; r_client := r_client r; r_cl := r_cl r; r_rscopes := r_rscopes r; r_gscopes := granted;
+                     r_raud := r_raud r; r_gaud := gaud;
+                     r_sess := {| s_subject := subject; s_exp_code := s_exp_code se; s_exp_at := s_exp_at se;
+                                  s_exp_rt := s_exp_rt se; s_exp_dev := s_exp_dev se |};
+                     r_redirect := ""; r_challenge := ""; r_method := ""; r_at := r_at r |} in
+        (set_store s (put_device (st s) k ((if accept then 1 else 2), r')), ok_obs [] 0%Z [])
+  end end.
+
+(* DeviceCodeTokenEndpointHandler: polling *)
+Definition device_poll (cfg : config) (s : state) (auth : option nat) (dev : pres) : state * obs :=
+  match auth with
+  | None => fail s "invalid_client"
+  | Some c =>
+  match clients s c with
+  | None => fail s "invalid_client"
+  | Some cl =>
+      if negb (args_has (cl_grants cl) ["urn:ietf:params:oauth:grant-type:device_code"]) then fail s "unauthorized_client"
+      else
+      match key_of s dev with
+      | None => fail s "invalid_grant"
+      | Some k =>
+      match device (st s) k with
+      | None => fail s "invalid_grant"
+      | Some (stt, r) =>
+          if Nat.eqb stt 0 then fail s "authorization_pending"
+          else if Nat.eqb stt 2 then fail s "access_denied"
+          else if expired (s_exp_dev (r_sess r)) (r_at r) (cf_life_dev cfg) (now s) then fail s "expired_token"
+          else if p_tampered dev then fail s "token_signature_mismatch"
+          else if negb (Nat.eqb (r_client r) c) then fail s "invalid_grant"
+          else
+            let se := set_token_expiries cfg (now s) (r_sess r) in
+            let stored := {| r_id := r_id r; r_client := c; r_cl := cl; r_rscopes := r_rscopes r; r_gscopes := r_gscopes r;
+                             r_raud := r_raud r; r_gaud := r_gaud r; r_sess := se; r_redirect := "";
+                             r_challenge := ""; r_method := ""; r_at := now s |} in
+            (* InvalidateDeviceCodeSession (the reference store deletes), then the token sessions *)
+            let s1 := set_store s (delete_device (st s) k) in
+            let (s2, minted) := grant_tokens s1 stored (can_refresh cfg (r_gscopes r) cl) in
+            (s2, ok_obs minted (expires_in se cfg (now s)) (r_gscopes r))
+      end end
+  end end.
 
 (* ------------------------------------------------------------------ token endpoint: authorization_code *)
 Definition redeem (cfg : config) (s : state) (auth : option nat) (code : pres) (redirect : string)
@@ -348,7 +496,8 @@ Definition introspect (cfg : config) (s : state) (tok : pres) (h : hint) (scopes
 Definition fresh_session (cfg : config) (s : state) (subject : string) (round_at : bool) (with_rt : bool) : sess :=
   {| s_subject := subject; s_exp_code := None;
      s_exp_at := Some (if round_at then round_s (now s + cf_life_at cfg) else (now s + cf_life_at cfg)%Z);
-     s_exp_rt := if with_rt && Z.leb 0 (cf_life_rt cfg) then Some (round_s (now s + cf_life_rt cfg)) else None |}.
+     s_exp_rt := if with_rt && Z.leb 0 (cf_life_rt cfg) then Some (round_s (now s + cf_life_rt cfg)) else None;
+     s_exp_dev := None |}.
 
 (* flow_resource_owner.go; the subject is whatever the user store answers (the reference store
    answers a random UUID, written "uuid" in observations) *)
@@ -440,6 +589,11 @@ Definition step (cfg : config) (s : state) (o : op) : state * obs :=
   | OPassword auth ok sc au g ga => password_flow cfg s auth ok sc au g ga
   | OClientCreds auth sc au g ga => client_credentials_flow cfg s auth sc au g ga
   | OIntrospectEP cal tok h scopes => (s, introspect_ep cfg s cal tok h scopes)
+  | OPush auth bc ru a => push cfg s auth bc ru a
+  | OAuthorizePAR cp uri a => authorize_par cfg s cp uri a
+  | ODeviceAuth auth bc sc au => device_authorize cfg s auth bc sc au
+  | ODecide dev acc g ga sub => decide cfg s dev acc g ga sub
+  | ODevicePoll auth dev => device_poll cfg s auth dev
   end.
 
 Definition run (cfg : config) (s : state) (h : list op) : state :=
@@ -449,9 +603,9 @@ Definition run (cfg : config) (s : state) (h : list op) : state :=
    out, with the matching hint and no required scope *)
 Definition probe_one (cfg : config) (s : state) (i : nat) (e : issued) : option payload :=
   match i_kind e with
-  | KCode => None
   | KAccess => introspect cfg s {| p_ref := CRef i; p_tampered := false |} HAccess []
   | KRefresh => introspect cfg s {| p_ref := CRef i; p_tampered := false |} HRefresh []
+  | _ => None
   end.
 Fixpoint probes_from (cfg : config) (s : state) (i : nat) (l : list issued) : list (option payload) :=
   match l with
